@@ -87,6 +87,24 @@ def run(ctx):
                   "resp": ["v", "v"], "settle": [], "spurious": 2, "junk": True})
     cases.append({"script": HEAD + "console.log('I'); const p1 = order({k: 1, tag: 'payload-1', list: [1, 'x']}); console.log('I'); const p2 = order({k: 2, tag: 'payload-2', list: [2, 'x']});"
                   " console.log('K:race:1,2'); const w = await Promise.race([p1, p2]); 'w' + w", "resp": ["op", "op"], "settle": [[2, "res"], [1, "res"]], "spurious": 0})
+    # batches: several orders outstanding at once, awaited in another order than issued, answered a few at a time
+    nb = 150 if ctx.tier == "quick" else 3000
+    for i in range(nb):
+        k = rng.randint(2, 5)
+        perm = list(range(1, k + 1))
+        rng.shuffle(perm)
+        kinds = [rng.choice(["v", "v", "o", "e"]) for _ in range(k)]
+        body = ["console.log('I');" * k, "const ms = [%s].map(order as any);" % ",".join("{k: %d, tag: 'payload-%d', list: [%d, 'x']}" % (j, j, j) for j in range(1, k + 1))]
+        for j in perm:
+            body.append("try { const r%d = await ms[%d]; out.push('R%d:' + (typeof r%d === 'object' ? 'obj' + r%d.x + r%d.nested.y.length : r%d)); } catch (e) { out.push('R%d:caught:' + e); }" % (j, j - 1, j, j, j, j, j, j))
+        body.append("out.join(';')")
+        plan = []
+        left = list(range(1, k + 1))
+        while left:
+            take = rng.sample(left, rng.randint(1, len(left)))
+            plan.append(take)
+            left = [x for x in left if x not in take]
+        cases.append({"script": HEAD + "\n".join(body), "resp": kinds, "settle": [], "spurious": rng.choice([0, 0, 1, 2]), "junk": False, "gc": rng.random() < 0.3, "partial": plan})
     hl = [json.dumps(c) for c in cases]
     got = common.harness(["orders"], hl, timeout=600)
     # reconstruct ledger events from each trace, replay through the model
@@ -252,6 +270,6 @@ def run(ctx):
     ctx.cov["rule"] = ("generated straight-line scripts with 1..6 orders (awaited or not), __getOrderId__, __cancelOrder__ of issued/unissued/answered ids, awaits of host promises, "
                        "Promise.all/race/allSettled over host promises; host policies: value / error / object / plain promise / order-linked promise responses, settle order and "
                        "resolve-or-reject per promise, 0..3 spurious steps at every suspension, junk answers (unknown and duplicate ids), forced collections. "
-                       "distinct_nontrivial = distinct protocol traces")
+                       "plus batches of 2..5 orders issued at once, awaited in a shuffled order and answered a few at a time (the awaited one not necessarily first). distinct_nontrivial = distinct protocol traces")
     ctx.cov["input_distribution"] = hist
     ctx.sample({"script": cases[0]["script"][len(HEAD):][:500], "policy": {k: cases[0][k] for k in ("resp", "settle", "spurious")}, "trace": got[0][:600], "model_events": mlines[0], "model_reports": exp[0]})
